@@ -25,8 +25,8 @@ RULE = (
     "(8,j,i) of the independent reference (1e-6). Non-trivial: >= 4 tiles or depth 0; distinct by spec."
 )
 ASSUMPTIONS = ["toast_tile_get_coords is trusted here (decided by C05)", "samplers are functions of cos/sin of the longitude (grids may be on any 2pi branch)"]
-SAMPLERS = ["f64pos", "f32", "u8", "i16", "rgb", "rgba"]
-FMT_OK = {"npy": SAMPLERS, "fits": ["f64pos", "f32", "u8", "i16"], "png": ["rgb", "rgba"], "jpg": ["rgb"]}
+SAMPLERS = ["f64pos", "f32", "u8", "i16", "rgb", "rgba", "f32_be", "f64pos_be", "i16_be"]
+FMT_OK = {"npy": SAMPLERS, "fits": ["f64pos", "f32", "u8", "i16", "f32_be", "f64pos_be", "i16_be"], "png": ["rgb", "rgba"], "jpg": ["rgb"]}
 
 
 def precheck():
@@ -71,6 +71,14 @@ def make_sampler(kind, part=None):
         m = np.sin(5 * lat) * np.cos(lon) > 0.1
         return m if part == "a" else ~m
 
+    if kind.endswith("_be"):
+        base = make_sampler(kind[:-3], part)
+
+        def s_be(lon, lat):  # what a FITS-backed source hands out: non-native byte order
+            v = base(lon, lat)
+            return v.astype(v.dtype.newbyteorder(">"))
+
+        return s_be
     if kind == "f64pos":
         def s(lon, lat):
             v = np.cos(lon) + 10 * np.sin(lon) + 100 * lat
@@ -180,7 +188,7 @@ def run_case(spec, workdir):
     acc = gens.resolve_accepted(pspec)
     leaves = rq.leaves(depth, acc)
     passes = [make_sampler(spec["sampler"], None)] if spec["mode"] != "update2" else [make_sampler(spec["sampler"], "a"), make_sampler(spec["sampler"], "b")]
-    if spec["mode"] == "update" and spec["sampler"] in ("f64pos", "f32", "rgba", "u8", "i16"):
+    if spec["mode"] == "update" and spec["sampler"] in ("f64pos", "f32", "rgba", "u8", "i16", "f32_be", "f64pos_be", "i16_be"):
         passes = [make_sampler(spec["sampler"], "a")]
     if spec["mode"] == "reclobber":
         # an all-sky layer is sampled first; then a sampler that leaves whole tiles undefined clobbers it: nothing of the
